@@ -5,6 +5,9 @@ MCLower == ("a" :> "a") @@ ("A" :> "a") @@ ("b" :> "b")
 MCShapes == {<<>>} \cup {<<n>> : n \in MCNames} \cup {<<n, m>> : n, m \in MCNames}
 (* Fewer shapes (no repeated spelling inside a record) for deeper paths. *)
 MCShapes8 == {<<>>, <<"a">>, <<"A">>, <<"b">>, <<"a", "A">>, <<"A", "b">>, <<"b", "a">>, <<"b", "A">>}
+(* Record shapes for the multi-reader generator (every record has a name: it *)
+(* is rendered as a hosts line).                                             *)
+MCShapesR == {<<"a">>, <<"A">>, <<"b">>, <<"A", "b">>}
 (* A larger instance for the thorough tier of the model checking run. *)
 MCNames5 == {"a", "A", "b", "B", "c"}
 MCLower5 == ("a" :> "a") @@ ("A" :> "a") @@ ("b" :> "b") @@ ("B" :> "b") @@ ("c" :> "c")
